@@ -558,7 +558,10 @@ class SymChoice(object):
     def __le__(self, o): return lift_call(lambda a, b: a <= b, (self, o), {})
     def __gt__(self, o): return lift_call(lambda a, b: a > b, (self, o), {})
     def __ge__(self, o): return lift_call(lambda a, b: a >= b, (self, o), {})
-    def __getitem__(self, k): return lift_call(lambda a, b: a[b], (self, k), {})
+    def __getitem__(self, k):
+        if isinstance(k, slice):
+            return lift_call(lambda a, s0, s1, s2: a[slice(s0, s1, s2)], (self, k.start, k.stop, k.step), {})
+        return lift_call(lambda a, b: a[b], (self, k), {})
     def __contains__(self, x): return bool(lift_call(lambda a, b: b in a, (self, x), {}))
     def __add__(self, o): return lift_call(lambda a, b: a + b, (self, o), {})
     def __radd__(self, o): return lift_call(lambda a, b: b + a, (self, o), {})
